@@ -220,3 +220,70 @@ seq!(sp_iiir_shape, 4, [ins, ins, ins, rem], q_shape);
 seq!(sp_iiir_get, 4, [ins, ins, ins, rem], q_get);
 seq!(sp_iiii_shape, 5, [ins, ins, ins, ins], q_shape);
 seq!(sp_iiii_refstab, 5, [ins, ins, ins, ins], q_refstab);
+
+// ---- remaining public operations: get_mut, Index/IndexMut, extend, clear, SplaySet wrappers
+#[kani::proof]
+#[kani::unwind(3)]
+fn sp_getmut_index() {
+    let mut t = new_tree_generic();
+    let mut m = Model::new();
+    ins(&mut t, &mut m);
+    ins(&mut t, &mut m);
+    let k = key();
+    let nv: u8 = kani::any();
+    match t.get_mut(&k) {
+        Some(v) => {
+            assert!(m.get(k).is_some(), "get_mut finds only present keys");
+            *v = nv;
+            m.insert(k, nv);
+        }
+        None => assert!(m.get(k).is_none(), "get_mut misses only absent keys"),
+    }
+    let q = key();
+    if m.get(q).is_some() {
+        assert!(t[&q] == m.get(q).unwrap(), "Index returns the stored value (after a write through get_mut)");
+        t[&q] = 7;
+        assert!(t.get(&q) == Some(&7), "IndexMut writes the stored value");
+    }
+    assert!(t.len() == m.len(), "len unchanged by value updates");
+    kani::cover!(m.get(k).is_some() && q == k, "written key read back");
+    std::mem::forget(t);
+}
+#[kani::proof]
+#[kani::unwind(4)]
+fn sp_extend_clear() {
+    let mut t = new_tree_generic();
+    let mut m = Model::new();
+    ins(&mut t, &mut m);
+    let (k1, k2, v1, v2): (u8, u8, u8, u8) = (key(), key(), kani::any(), kani::any());
+    t.extend([(k1, v1), (k2, v2)]);
+    m.insert(k1, v1);
+    m.insert(k2, v2);
+    q_shape(&t, &m);
+    let q = key();
+    assert!(t.get(&q).copied() == m.get(q), "extend inserts every pair (later pairs replace earlier ones)");
+    t.clear();
+    assert!(t.len() == 0 && t.is_empty() && t.min().is_none() && t.get(&q).is_none(), "clear empties the map");
+    let r = t.insert(q, 1);
+    assert!(r.is_none() && t.len() == 1, "the map is usable after clear");
+    kani::cover!(k1 == k2, "extend with a duplicate key");
+    std::mem::forget(t);
+}
+#[kani::proof]
+#[kani::unwind(3)]
+fn sp_set_wrappers() {
+    let mut s = SplaySet::new(|a: &u8, b: &u8| a.cmp(b));
+    let mut m = Model::new();
+    let (k1, k2) = (key(), key());
+    assert!(s.insert(k1) == m.insert(k1, 0).is_none(), "set insert reports whether the key was new");
+    assert!(s.insert(k2) == m.insert(k2, 0).is_none(), "set insert reports whether the key was new");
+    let q = key();
+    assert!(s.contains(&q) == m.get(q).is_some() && s.find(&q).copied() == m.get(q).map(|_| q), "set contains/find");
+    assert!(s.next(&q).copied() == m.next(q).map(|p| p.0) && s.prev(&q).copied() == m.prev(q).map(|p| p.0), "set next/prev");
+    assert!(s.min().copied() == m.min() && s.max().copied() == m.max() && s.len() == m.len() && s.is_empty() == (m.len() == 0), "set min/max/len");
+    let r: u8 = key();
+    assert!(s.remove(&r) == m.remove(r).is_some(), "set remove reports whether the key was present");
+    assert!(s.len() == m.len() && s.contains(&r) == false, "removed key is gone");
+    kani::cover!(k1 != k2 && r == k1, "remove one of two");
+    std::mem::forget(s);
+}
